@@ -46,6 +46,12 @@ KERNELS = [
     {"keys": ["x"], "style": "mixin", "needs_history": False},
     {"keys": ["y", "z"], "style": "plain", "needs_history": False},
 ]
+# the same kernels, but the second one asks for its history (its keys may still be
+# left out of the tracked positions when no adaptation epoch ever tunes it)
+KERNELS_H = [
+    {"keys": ["x"], "style": "mixin", "needs_history": False},
+    {"keys": ["y", "z"], "style": "plain", "needs_history": True},
+]
 SHAPE_ROT = [
     {"x": [], "y": [3], "z": [2, 2], "w": []},
     {"x": [3], "y": [2, 2], "z": [], "w": [3]},
@@ -116,6 +122,21 @@ def key_cases(tier, seed):
                     if not kept:
                         continue
                     cases.append({"kind": "keys", "cfg": dict(base, included=inc, excluded=exc), "variants": [{"via": "builder"}]})
+        # excluded / untracked keys that belong to a kernel with needs_history=True, on the
+        # schedule without adaptation epochs (no tune call ever looks the history up)
+        sched = KEY_SCHEDULES[1]
+        g = math.gcd(*[s_[1] for s_ in sched[1:]])
+        baseh = {"schedule": sched, "chains": 2, "kernels": KERNELS_H, "shapes": shapes,
+                 "store_kernel_states": False, "qg": False, "seed": seed}
+        for tr in subsets:
+            if "y" in tr and "z" in tr:
+                continue
+            cases.append({"kind": "keys", "cfg": dict(baseh, tracked=tr), "variants": [{"via": "ctor", "chunk": g}]})
+        for inc in ([], ["w"]):
+            for exc in (["y"], ["z"], ["y", "z"], ["x", "y"], ["z", "w"]):
+                kept = [k for k in ["x", "y", "z"] + inc if k not in exc]
+                if kept:
+                    cases.append({"kind": "keys", "cfg": dict(baseh, included=inc, excluded=exc), "variants": [{"via": "builder"}]})
     return cases
 
 
